@@ -306,11 +306,9 @@ class BDsScore(BDeuScore):
         gammaln(log_gamma_conds + alpha, out=log_gamma_conds)
 
         # Adjustment because of missing 0 columns when using reindex=False for computing state_counts to save memory.
-        gamma_counts_adj = (
-            (num_parents_states - counts.shape[1])
-            * len(self.state_names[variable])
-            * gammaln(beta)
-        )
+        # reindex=False also drops the rows of child states that never occur (when there are
+        # parents), so count every missing cell, not only those of the missing columns.
+        gamma_counts_adj = (counts_size - counts.size) * gammaln(beta)
         gamma_conds_adj = (num_parents_states - counts.shape[1]) * gammaln(alpha)
 
         score = (
